@@ -44,6 +44,11 @@ RULE = ('fshift: every length n = 2..256 (thorough: every n <= 512, all primes <
         'and random arrays incl. edge maxima, ties, plateaus, the 2-D branch; numeric oracle of the delay estimate on Ricker/Morlet '
         'wavelets. A case is non-trivial when the shift is non-zero and the signal is not constant; distinct by its description.')
 ASSUMPTIONS = [
+    'fshift, parabolic_max, wave_shift_corrmax and shift_waveform are treated as pure functions of their arguments (the model is one): on '
+    'half of the fshift cases the same argument objects (data and shift vector) are passed three times, followed by equal fresh arguments, on '
+    'a quarter other library calls are interleaved; every repeated result must equal the first bit for bit (= the model of the ORIGINAL values); '
+    'only the DATA array of fshift is required to stay bit-identical (property text); a modified shift vector / other argument is reported '
+    'only through a wrong later result; returned arrays are never written to (aliasing of results is not part of the property)',
     'Float twin of the model (O(n^2) DFT sums in binary64) vs the real code: |difference| <= 1e-9 * max(1, max|x|) for float64 input, '
     '<= 1e-5 * max(1, max|x|) for float32 input (measured 7e-13 and 5e-7 on the unchanged tree)',
     'composition fshift(fshift(x,a),b) = fshift(x,a+b) is demanded only for odd n, or a or b integer, or zero Nyquist coefficient; the '
@@ -188,26 +193,73 @@ def _err_name(e):
     return 'err ' + type(e).__name__
 
 
-def _run_impl(w64, s, axis):
-    """Run fshift in float64 and float32; return ('ok', y64, y32) or ('err X',) or a description of an interface violation."""
+def _interleave(n, dt, k):
+    """other library calls between two identical fshift calls, each on its own arrays"""
+    from ibldsp import fourier, utils
+    r = np.random.default_rng([n, k])
+    a = r.standard_normal(n).astype(dt)
+    fourier.fshift(a, float(r.uniform(-n, n)))
+    b = r.standard_normal((3, n)).astype(dt)
+    fourier.fshift(b, np.array([0.5, 1 / 3, 1 / 3]), axis=1)
+    fourier.fshift(b.T.copy(), np.array([1.0, 2.0, 2.0]), axis=0)
+    fourier.fscale(n, 1.0)
+    utils.parabolic_max(a.astype(float))
+    if n >= 4:
+        from ibldsp.waveforms import wave_shift_corrmax
+        wave_shift_corrmax(a.astype(float), np.roll(a.astype(float), 1))
+
+
+_S_MODIFIED = [0]
+
+
+def _run_impl(w64, s, axis, purity=0):
+    """Run fshift in float64 and float32; return ('ok', y64, y32) or ('err X',) or a description of an interface / purity
+    violation.  The DATA array must stay bit-identical (the property says so).  purity >= 1: the SAME argument objects (data and
+    shift vector) are passed two more times, then equal fresh arguments; every result must be bit-identical to the first, which
+    is the one compared with the model of the ORIGINAL values (a shift vector modified in place shows up here, through its
+    consequence).  purity >= 2: other library calls are interleaved.  Returned arrays are never written to."""
     from ibldsp.fourier import fshift
     outs = []
     for dt in (np.float64, np.float32):
+        name = np.dtype(dt).name
         w = np.array(w64, dtype=dt)
         w0 = w.copy()
         s_in = s.copy() if isinstance(s, np.ndarray) else s
+        s0 = s.copy() if isinstance(s, np.ndarray) else s
         try:
             y = fshift(w, s_in, axis=axis)
         except Exception as e:  # noqa
+            if not np.array_equal(w, w0):
+                return (f'bad: real input array was modified by a call that raised {type(e).__name__} ({name})',)
             outs.append(_err_name(e)); continue
         if not isinstance(y, np.ndarray):
             return (f'bad: result is {type(y).__name__}',)
         if y.shape != w.shape:
-            return (f'bad: shape {y.shape} != input shape {w.shape} ({np.dtype(dt).name})',)
+            return (f'bad: shape {y.shape} != input shape {w.shape} ({name})',)
         if y.dtype != w.dtype:
             return (f'bad: dtype {y.dtype} != input dtype {w.dtype}',)
         if not np.array_equal(w, w0):
-            return (f'bad: real input array was modified ({np.dtype(dt).name})',)
+            return (f'bad: real input array was modified ({name})',)
+        if isinstance(s0, np.ndarray) and not np.array_equal(s_in, s0):
+            _S_MODIFIED[0] += 1                              # informational only; the repeated calls below show any consequence
+        if purity:
+            y1 = y.copy()
+            if purity >= 2:
+                _interleave(w.shape[axis], dt, 1)
+            try:
+                y2 = fshift(w, s_in, axis=axis)              # the same objects again
+                y2c = y2.copy()
+                y3 = fshift(w, s_in, axis=axis)              # and once more
+                y4 = fshift(w0.copy(), s0.copy() if isinstance(s0, np.ndarray) else s0, axis=axis)   # equal fresh arguments
+            except Exception as e:  # noqa
+                return (f'bad: purity: a repeated identical call raised {type(e).__name__}: {e} ({name})',)
+            for k, yy in ((2, y2c), (3, y3), (4, y4)):
+                if yy.shape != y1.shape or yy.dtype != y1.dtype or not np.array_equal(yy, y1):
+                    return (f'bad: purity: call #{k} with ' + ('the same argument objects' if k < 4 else 'equal fresh arguments') +
+                            f' returned a different result than call #1 ({name})',)
+            if not np.array_equal(w, w0):
+                return (f'bad: purity: real input array was modified by a repeated call ({name})',)
+            y = y1
         outs.append(y)
     if isinstance(outs[0], str) or isinstance(outs[1], str):
         if outs[0] == outs[1]:
@@ -482,8 +534,11 @@ def _corr_fshift(ctx):
             lines.append(f'fshift2 {n} 1 S {_bits(s)} {_rows_bits(w)}'); costs.append(n ** 3); built.append((c, w, s))
     ans = _lean_parallel(ctx, lines, costs)
     worst64 = worst32 = 0.0
+    ncase = 0
     for (c, w, s_py), a in zip(built, ans):
-        res = _run_impl(w, s_py, c['axis'])
+        pur = 2 if (ncase % 4 == 0 and c.get('n', 99) <= 96) else 1 if ncase % 2 == 0 else 0
+        ncase += 1
+        res = _run_impl(w, s_py, c['axis'], purity=pur)
         dec = _dec if c['op'] == 'fshift1' else _dec_rows
         impl_s, model_s = _compare_numeric(res, a, w, dec)
         if res[0] == 'ok' and a.startswith('ok '):
@@ -495,16 +550,17 @@ def _corr_fshift(ctx):
         if c['op'] == 'fshift1':
             desc = dict(c); desc['s'] = s_py.tolist() if isinstance(s_py, np.ndarray) else float(s_py)
             nontriv = c['n'] >= 2 and c['shift'] != 'zero' and c['sig'] != 'const'
-            tags = ('fshift1', _nclass(c['n']) if c['n'] >= 2 else 'n<2', 'shift:' + c['shift'], 'sig:' + c['sig'], f'axis={c["axis"]}',
+            tags = ('purity:' + ('none', 'repeat', 'repeat+interleave')[pur], 'fshift1', _nclass(c['n']) if c['n'] >= 2 else 'n<2', 'shift:' + c['shift'], 'sig:' + c['sig'], f'axis={c["axis"]}',
                     's:' + c['stype'], 'result:' + ('err' if res[0].startswith('err') else 'ok'))
         elif c['op'] == 'fshift2':
             desc = dict(c)
             nontriv = True
-            tags = ('fshift2', f'axis={c["axis"]}', 'mode:' + c['mode'], 'result:' + ('err' if res[0].startswith('err') else 'ok'))
+            tags = ('purity:' + ('none', 'repeat', 'repeat+interleave')[pur], 'fshift2', f'axis={c["axis"]}', 'mode:' + c['mode'], 'result:' + ('err' if res[0].startswith('err') else 'ok'))
         else:
             desc = dict(c); nontriv = True
             tags = ('impulse_basis', _nclass(c['n']), 'shift:' + c['shift'])
         ctx.compare(c['op'], desc, impl_s, model_s, nontrivial=nontriv, tags=tags)
+    ctx.note(f'shift vector found modified after a call (informational; consequences are checked by the repeated calls): {_S_MODIFIED[0]} times')
     ctx.note(f'largest |real code - Float twin| / max(1, max|x|): float64 {worst64:.3g} (tolerance {TOL64}), '
              f'float32 {worst32:.3g} (tolerance {TOL32})')
 
@@ -538,8 +594,12 @@ def _corr_pmax(ctx):
     for (kind, x), a in zip(cases, ans):
         desc = {'op': 'pmax', 'kind': kind, 'x': x.tolist()}
         try:
-            ip, mx = parabolic_max(x.copy())
+            xo = x.copy()
+            ip, mx = parabolic_max(xo)
             ip, mx = float(ip), float(mx)
+            ipb, mxb = parabolic_max(xo)                      # the same object again
+            if float(ipb) != ip or float(mxb) != mx:
+                raise AssertionError('parabolic_max: second call with the same array returned a different result')
             p = a.split()
             mip, mmx = (float(_dec(p[1])[0]), float(_dec(p[2])[0])) if p[0] == 'ok' else (None, None)
             if kind == 'float':
@@ -588,6 +648,12 @@ def delay_case(n, wav, a, c, d, dtype):
     w2 = fshift(w, d)
     rs, dh = wave_shift_corrmax(w, w2)
     dh = float(dh)
+    rs1 = np.array(rs, copy=True)
+    rsb, dhb = wave_shift_corrmax(w, w2)                     # the same argument objects again
+    if float(dhb) != dh or not np.array_equal(np.asarray(rsb), rs1):
+        return (f'wave_shift_corrmax called twice with the same arrays: delay {dh!r} then {float(dhb)!r}, re-aligned copies '
+                f'{"equal" if np.array_equal(np.asarray(rsb), rs1) else "differ"}'), 9.0, 9.0
+    rs = rs1
     if not abs(dh - d) <= DELAY_TOL:
         return f'estimated delay {dh!r} for an applied shift {d!r} (error {abs(dh - d):.3g} > {DELAY_TOL})', abs(dh - d), 0.0
     re = float(np.max(np.abs(np.asarray(rs, dtype=float) - w.astype(float))) / np.max(np.abs(w)))
@@ -637,8 +703,9 @@ def cluster_case(p):
     out, sh = shift_waveform(wf)
     if out.shape != wf.shape:
         return f'output shape {out.shape} != input shape {wf.shape}', 0, 0
-    if not np.array_equal(wf, wf0):
-        return 'input cluster was modified', 0, 0
+    out_b, sh_b = shift_waveform(wf)                         # the same cluster object again
+    if not (np.array_equal(np.asarray(out_b), np.asarray(out)) and np.array_equal(np.asarray(sh_b), np.asarray(sh))):
+        return 'shift_waveform called twice on the same cluster returned different results', 9.0, 9.0
     resid = np.asarray(sh, dtype=float) + d
     e = float(np.max(np.abs(resid - resid.mean())))
     spread = float(np.max(np.abs(out - out[h][None])) / np.max(np.abs(base)))
@@ -878,7 +945,136 @@ def oracle_pmax2d(x):
     return None
 
 
+def run_sequence(seq):
+    """Executes a concrete sequence of library calls (JSON-able) and checks what C07 says of each: the real-valued data array of
+    fshift untouched, shape and dtype preserved, integer shifts = np.roll, and a call whose ORIGINAL argument values equal those
+    of an earlier call gives the same result, whatever happened in between (same objects passed again, other calls interleaved).
+    Calls with the same 'args_id' receive the SAME Python objects, so an argument modified in place by the library shows up as a
+    wrong later result.  Returned arrays are never written to.  Returns None or (index, observed, expected)."""
+    import json
+    from ibldsp import fourier, utils
+    from ibldsp.waveforms import wave_shift_corrmax
+    objs, last = {}, {}
+    for idx, c in enumerate(seq):
+        fn = c['fn']
+        sig = json.dumps({k: v for k, v in c.items() if k != 'args_id'}, sort_keys=True)
+        if fn == 'fshift':
+            dt = np.dtype(c['dtype'])
+            key = c.get('args_id', f'#{idx}')
+            if key not in objs:
+                objs[key] = (np.array(c['w'], dtype=dt), np.array(c['s'], dtype=float) if isinstance(c['s'], list) else c['s'])
+            w, sv = objs[key]
+            w0 = np.array(c['w'], dtype=dt)
+            try:
+                y = fourier.fshift(w, sv, axis=c['axis'])
+            except Exception as e:  # noqa
+                return idx, f'call #{idx} fshift raised {type(e).__name__}: {e}', 'a shifted array'
+            if not np.array_equal(w, w0):
+                return idx, f'call #{idx}: fshift modified its real-valued input array: now {w.tolist()}', f'input left untouched: {w0.tolist()}'
+            if y.shape != w0.shape or y.dtype != w0.dtype:
+                return idx, f'call #{idx}: result shape {y.shape} dtype {y.dtype}', f'shape {w0.shape} dtype {w0.dtype}'
+            if sig in last and not np.array_equal(y, last[sig][1]):
+                j = last[sig][0]
+                return (idx, f'call #{idx} has the same arguments as call #{j} but returns {y.tolist()}',
+                        f'the result of call #{j}: {last[sig][1].tolist()}')
+            svec = np.atleast_1d(np.asarray(sv, dtype=float))
+            if np.all(svec == np.round(svec)):
+                ax = c['axis']
+                if w0.ndim == 1 or svec.size == 1:
+                    ref = np.roll(w0, int(svec[0]), axis=ax)
+                else:
+                    rows = ax in (1, -1)
+                    ref = np.stack([np.roll(w0[i, :] if rows else w0[:, i], int(svec[i])) for i in range(svec.size)], axis=0 if rows else 1)
+                if np.max(np.abs(y.astype(float) - ref.astype(float))) > 4 * _tol(dt, w0):
+                    return idx, f'call #{idx}: fshift by the integer shift(s) {svec.tolist()} = {y.tolist()}', f'np.roll = {ref.tolist()}'
+            last[sig] = (idx, y.copy())
+        elif fn == 'parabolic_max':
+            key = c.get('args_id', f'#{idx}')
+            if key not in objs:
+                objs[key] = np.array(c['x'], dtype=float)
+            x = objs[key]
+            r = utils.parabolic_max(x)
+            val = (np.asarray(r[0], dtype=float).tolist(), np.asarray(r[1], dtype=float).tolist())
+            if sig in last and val != last[sig][1]:
+                return idx, f'call #{idx} = {val}', f'same as the identical call #{last[sig][0]}: {last[sig][1]}'
+            chk = oracle_pmax(c['x']) if np.ndim(c['x']) == 1 else oracle_pmax2d(c['x'])
+            if chk:
+                return idx, f'call #{idx}: ' + chk[1], chk[2]
+            last[sig] = (idx, val)
+        elif fn == 'wave_shift_corrmax':
+            key = c.get('args_id', f'#{idx}')
+            if key not in objs:
+                objs[key] = (np.array(c['spike'], dtype=float), np.array(c['spike2'], dtype=float))
+            a, b = objs[key]
+            rs, dh = wave_shift_corrmax(a, b)
+            val = (float(dh), np.asarray(rs, dtype=float).tolist())
+            if sig in last and val != last[sig][1]:
+                return idx, f'call #{idx} = {val}', f'same as the identical call #{last[sig][0]}: {last[sig][1]}'
+            last[sig] = (idx, val)
+        elif fn == 'fscale':            # interleaved library call
+            fourier.fscale(c['n'], 1.0)
+        else:
+            raise ValueError(fn)
+    return None
+
+
+def purity_sequences(w, sv, axis, dtype):
+    """call sequences around one fshift call: the same argument objects passed again, other calls interleaved"""
+    w = np.asarray(w, dtype=dtype)
+    n = w.shape[axis]
+    call = {'fn': 'fshift', 'w': w.tolist(), 'dtype': np.dtype(dtype).name, 's': sv.tolist() if isinstance(sv, np.ndarray) else sv,
+            'axis': axis, 'args_id': 'A'}
+    other = {'fn': 'fshift', 'w': (np.arange(n, dtype=float) + 1).tolist(), 'dtype': np.dtype(dtype).name, 's': 0.5, 'axis': -1}
+    other_int = dict(other, s=1)
+    seqs = [[dict(call), dict(call)],
+            [dict(call), other, {'fn': 'fscale', 'n': n}, dict(call), dict(call, args_id='B')],
+            [other_int, dict(other_int, s=2), dict(call), other, dict(call)]]
+    return seqs
+
+
+_FRESH_DETAIL = [None]
+
+
+def run_sequence_cold(seq):
+    """the verdict text of the replay just executed in this (fresh) interpreter: re-running would see warm state, so the first
+    verdict is kept"""
+    return _LAST_SEQ[0]
+
+
+_LAST_SEQ = [None]
+
+
+def _fresh(code_obj):
+    """run `replay` on a candidate in a NEW interpreter (state carried between calls must not leak from this process into the
+    verdict, and a replay must reproduce from a cold start); True when it fails there"""
+    import json, subprocess, sys
+    prog = ('import sys, json\n'
+            'sys.path[:0] = json.loads(sys.argv[1])\n'
+            'import props.c07 as m\n'
+            'rep = json.load(sys.stdin)\n'
+            'import io, contextlib\n'
+            'buf = io.StringIO()\n'
+            'with contextlib.redirect_stdout(buf):\n'
+            '    r = m.replay(None, rep)\n'
+            'print("FAILS" if r else "HOLDS")\n'
+            'if "sequence" in rep["input"]:\n'
+            '    print("DETAIL " + json.dumps(m.run_sequence_cold(rep["input"]["sequence"])))\n')
+    try:
+        p = subprocess.run([sys.executable, '-c', prog, json.dumps([q for q in sys.path if q])], input=json.dumps(code_obj, default=str),
+                           capture_output=True, text=True, timeout=300)
+        if 'FAILS' in p.stdout:
+            for line in p.stdout.splitlines():
+                if line.startswith('DETAIL '):
+                    _FRESH_DETAIL[0] = json.loads(line[7:])
+            return True
+        return False if 'HOLDS' in p.stdout else None
+    except Exception:  # noqa
+        return None
+
+
 def _size(inp):
+    if 'sequence' in inp:
+        return sum(int(np.size(c.get('w', c.get('x', c.get('spike', 0))))) for c in inp['sequence'])
     for k in ('x', 'w'):
         if k in inp:
             return int(np.size(inp[k]))
@@ -1000,14 +1196,71 @@ def search(ctx, reasons):
                 found.append({'input': cluster_params(seed), 'observed': r if isinstance(r, str) else r[1],
                               'how': 'harness/props/c07.py cluster_case(input)', 'expected': 'C07: shift_waveform re-aligns shifted copies of a template'})
                 break
+    # state carried between calls: concrete call sequences (same objects repeated, results overwritten, calls interleaved),
+    # each tried in a fresh interpreter
+    seq_inputs = []
+    for m in ctx.mismatches[:200]:
+        c = m['case']
+        if len(seq_inputs) >= 4:
+            break
+        if c.get('op') == 'fshift1' and 2 <= c.get('n', 0) <= 32:
+            x, s_py, _ = _build_1d(c)
+            if not isinstance(s_py, np.ndarray):
+                seq_inputs.append((x, float(s_py), -1))
+        elif c.get('op') == 'fshift2' and c.get('n', 0) >= 2 and c['nrow'] * c['ncol'] <= 60 and c.get('mode') != 'wrongsize':
+            w, sv, _ = _build_2d(c)
+            seq_inputs.append((w, sv, c['axis']))
+    seq_inputs += [(np.array([1.0, 2.0, 3.0]), 0.5, -1), (np.array([[1.0, 2.0, 3.0], [2.0, 4.0, 6.0]]), np.array([1 / 3, 1 / 3]), 1),
+                   (np.array([1.0, 2.0, 3.0, 5.0]), 1, -1)]
+    seqs = []
+    for (w, sv, ax) in seq_inputs:
+        seqs += purity_sequences(w, sv, ax, np.float64)
+    px = [1.0, 3.0, 2.0, 0.0]
+    seqs.append([{'fn': 'parabolic_max', 'x': px, 'args_id': 'A'}, {'fn': 'parabolic_max', 'x': px, 'args_id': 'A'},
+                 {'fn': 'parabolic_max', 'x': [px, px[::-1]], 'args_id': 'B'}, {'fn': 'parabolic_max', 'x': px}])
+    wv = [round(float(v), 6) for v in ricker(32, 2.5, 15.3)]
+    wv2 = [round(float(v), 6) for v in ricker(32, 2.5, 17.0)]
+    cm = {'fn': 'wave_shift_corrmax', 'spike': wv, 'spike2': wv2, 'args_id': 'A'}
+    seqs.append([cm, {'fn': 'fshift', 'w': wv, 'dtype': 'float64', 's': 0.25, 'axis': -1}, cm, dict(cm, args_id='B')])
+    nseq = 0
+    for sq in sorted(seqs, key=lambda q: _size({'sequence': q})):
+        if nseq >= 2:
+            break
+        item = {'input': {'sequence': sq}}
+        _FRESH_DETAIL[0] = None
+        if _fresh(item):
+            r = _FRESH_DETAIL[0]              # the verdict text comes from the fresh interpreter (this process may carry state)
+            found.append({'input': {'sequence': sq}, 'observed': r[1] if r else 'fails when executed from a cold start (see how)',
+                          'expected': 'C07: ' + (r[2] if r else 'equal arguments give equal results; arguments untouched'),
+                          'how': 'fresh interpreter: harness/props/c07.py run_sequence(input["sequence"]) — calls with the same args_id get the same objects',
+                          'confirmed_fresh': True})
+            nseq += 1
     if not found:
         return None
-    return min(found, key=lambda f: (_size(f['input']), len(str(f['input']))))
+    # a replay must reproduce from a cold start: confirm the candidates in a fresh interpreter, smallest first
+    ranked = sorted(found, key=lambda f: (_size(f['input']), len(str(f['input']))))
+    budget = 8
+    for f in ranked:
+        if f.get('confirmed_fresh'):
+            ok = True
+        elif budget > 0:
+            budget -= 1
+            ok = _fresh(f)
+        else:
+            continue
+        if ok or ok is None:
+            f.pop('confirmed_fresh', None)
+            return f
+    return None
 
 
 def replay(ctx, rep):
     i = rep['input']
     try:
+        if 'sequence' in i:
+            r = run_sequence(i['sequence'])
+            _LAST_SEQ[0] = list(r) if r else None
+            print('call sequence:', r); return r is not None
         if 'w' in i:
             from ibldsp.fourier import fshift
             w = np.array(i['w'], dtype=i['dtype']); s = np.array(i['s'], dtype=float) if isinstance(i['s'], list) else i['s']
